@@ -16,13 +16,15 @@ Fixpoint mism_from {A} (agree : A -> bool) (i : N) (l : list A) : list N :=
 
 Inductive vfs :=
 | VMem (m : mnode)
-| VDisk (d : dnode).
+| VDisk (d : dnode)
+| VDiskAt (d : dnode) (cwd : string).   (* process working directory = cwd (a physical, clean path) *)
 
-(* disk worlds are addressed by absolute paths only: the process working directory is not modelled *)
+(* VDisk: absolute paths only; VDiskAt: the harness chdir'ed to cwd, relative paths allowed *)
 Definition ops_of (v : vfs) : fsops :=
   match v with
   | VMem m => mem_ops m
   | VDisk d => disk_ops d "/"
+  | VDiskAt d cwd => disk_ops d cwd
   end.
 
 Inductive chainop :=
@@ -91,11 +93,13 @@ Definition agree05 (c : case05) : bool :=
       match fs with
       | VMem m => Bool.eqb (m_is_dir_path m p) b
       | VDisk d => Bool.eqb (d_is_dir d "/" p) b
+      | VDiskAt d cwd => Bool.eqb (d_is_dir d cwd p) b
       end
   | K_evalsym fs p cls out =>
       match fs with
       | VMem _ => false
       | VDisk d => res_str_agree (eval_symlinks d p) cls out
+      | VDiskAt _ _ => false
       end
   | K_chain fs ro target news op stage cls root bytes =>
       let ops := ops_of fs in
